@@ -58,80 +58,39 @@ Ltac norm1 := repeat first [rewrite Rdiv_one | rewrite Rmult_1_r].
 
 Ltac head_of t := match t with ?f _ => head_of f | _ => t end.
 
+(* equality of two record values, field by field; numeric fields up to ring / linear arithmetic *)
+Ltac rec_eq :=
+  match goal with
+  | |- mk_spdc _ _ _ _ _ _ _ _ _ _ _ = mk_spdc _ _ _ _ _ _ _ _ _ _ _ => f_equal; rec_eq
+  | |- mk_beam _ _ _ _ _ = mk_beam _ _ _ _ _ => f_equal; rec_eq
+  | |- mk_beam_waist _ _ = mk_beam_waist _ _ => f_equal; rec_eq
+  | |- mk_crystal_setup _ _ _ _ _ _ _ = mk_crystal_setup _ _ _ _ _ _ _ => f_equal; rec_eq
+  | |- @eq R _ _ => first [reflexivity | ring | lra]
+  | |- _ => reflexivity
+  end.
+
 Ltac setter_eq :=
   intros s v;
   match goal with |- ?lhs = _ => let h := head_of lhs in unfold h end;
   cbv beta zeta iota delta [ideal_set put_crystal put_beam get_beam beam_with_theta beam_with_phi beam_with_frequency
                             beam_with_waist si_of norm_angle norm_angle_signed c_light];
-  norm1; reflexivity.
+  norm1; first [reflexivity | rec_eq].
 
-Lemma assign_eq_with p sg ap q : pp_assign_period (On p sg ap) q = pp_with_period (On p sg ap) q.
-Proof.
-  cbn [pp_assign_period pp_with_period]. unfold pp_new.
-  destruct (Rgt_dec q (0 * 1)) as [H | H]; f_equal.
-  - apply Rabs_right. lra.
-  - apply Rabs_left1. lra.
-Qed.
-
-(* the poling-period arm as the code has it now (assign_period) agrees with the reference on every POLED base; if the code is
-   changed to create the poling when absent, the generic tactic closes the goal without this case *)
-Ltac poling_eq :=
-  intros s v Hpre;
-  match goal with |- ?lhs = _ => let h := head_of lhs in unfold h end;
-  cbv beta zeta iota delta [ideal_set si_of]; cbn [slot_pre] in Hpre;
-  destruct s as [sg idl pm cr pp pw bw th swp iwp df]; cbn [s_pp s_signal s_idler s_pump s_crystal_setup
-    s_pump_average_power s_pump_bandwidth s_pump_spectrum_threshold s_signal_waist_position s_idler_waist_position s_deff] in *;
-  destruct pp as [| p0 sg0 ap0]; [exfalso; apply Hpre; reflexivity|];
-  norm1; rewrite assign_eq_with; reflexivity.
-
-(* every non-frequency path writes exactly its slot with the value converted from the path's unit *)
+(* every path writes exactly its slot with the value converted from the path's unit *)
 Definition entry_ok (e : string * (slot * unit_kind)) : Prop :=
-  snd (snd e) <> UThz ->
-  exists f, getter (fst e) = Some f /\
-    forall s v, slot_pre (fst (snd e)) s -> f s v = ideal (fst (snd e)) (si_of (snd (snd e)) v) s.
+  exists f, getter (fst e) = Some f /\ forall s v, f s v = ideal (fst (snd e)) (si_of (snd (snd e)) v) s.
 
 Lemma all_entries_ok : Forall entry_ok spec_table.
 Proof.
   unfold spec_table.
-  repeat (apply Forall_cons;
-          [ unfold entry_ok; cbn [fst snd]; intros Hu;
-            first [ exfalso; apply Hu; reflexivity
-                  | eexists; split; [reflexivity | first [ intros s v _; revert s v; setter_eq | poling_eq ] ] ] | ]).
+  repeat (apply Forall_cons; [ unfold entry_ok; cbn [fst snd]; eexists; split; [reflexivity | setter_eq] | ]).
   apply Forall_nil.
 Qed.
 
 Lemma setters_match p sl u :
-  In (p, (sl, u)) spec_table -> u <> UThz ->
-  exists f, getter p = Some f /\ forall s v, slot_pre sl s -> f s v = ideal sl (si_of u v) s.
+  In (p, (sl, u)) spec_table ->
+  exists f, getter p = Some f /\ forall s v, f s v = ideal sl (si_of u v) s.
 Proof.
-  intros Hin Hu. pose proof all_entries_ok as H. rewrite Forall_forall in H. exact (H _ Hin Hu).
-Qed.
-
-(* the three frequency setters write the frequency slot with SOME value (which one is finding F8's subject) *)
-Definition thz_entry_some (e : string * (slot * unit_kind)) : Prop :=
-  snd (snd e) = UThz ->
-  exists f, getter (fst e) = Some f /\ forall s v, exists x, f s v = ideal (fst (snd e)) x s.
-
-Ltac setter_some :=
-  intros s v; eexists;
-  match goal with |- ?lhs = _ => let h := head_of lhs in unfold h end;
-  cbv beta zeta iota delta [ideal_set put_crystal put_beam get_beam beam_with_theta beam_with_phi beam_with_frequency
-                            beam_with_waist si_of norm_angle norm_angle_signed c_light];
-  reflexivity.
-
-Lemma all_thz_some : Forall thz_entry_some spec_table.
-Proof.
-  unfold spec_table.
-  repeat (apply Forall_cons;
-          [ unfold thz_entry_some; cbn [fst snd]; intros Hu;
-            first [ discriminate Hu | eexists; split; [reflexivity | setter_some] ] | ]).
-  apply Forall_nil.
-Qed.
-
-Lemma thz_some p sl :
-  In (p, (sl, UThz)) spec_table ->
-  exists f, getter p = Some f /\ forall s v, exists x, f s v = ideal sl x s.
-Proof.
-  intros Hin. pose proof all_thz_some as H. rewrite Forall_forall in H. exact (H _ Hin eq_refl).
+  intros Hin. pose proof all_entries_ok as H. rewrite Forall_forall in H. exact (H _ Hin).
 Qed.
 End Table.
